@@ -441,10 +441,24 @@ fn gen_match(b: &mut Builder, r: &mut Rng, depth: u32) -> E {
         2 => V::Bool(r.chance(1, 2)),
         _ => any_value(r),
     };
-    let scrut = match r.below(3) {
+    let scrut = match r.below(5) {
         0 => E::Lit(sv.clone()),
         1 => b.bound(sv.clone()),
-        _ => b.cb(vec![Answer::V(sv.clone())], vec![]),
+        2 | 3 => b.cb(vec![Answer::V(sv.clone())], vec![]),
+        _ => {
+            // a bare reference to a stored program that would answer differently if it were
+            // evaluated again: the scrutinee is evaluated once
+            let other = match &sv {
+                V::Int(i) => V::Int(i + 1),
+                V::Str(_) => V::s("other"),
+                V::Bool(x) => V::Bool(!x),
+                _ => V::Int(77),
+            };
+            let body = b.cb(vec![Answer::V(sv.clone()), Answer::V(other.clone()), Answer::V(other)], vec![]);
+            let name = format!("q{}", b.case.programs.len());
+            b.case.programs.insert(name.clone(), body);
+            E::Prog(name)
+        }
     };
     let ncases = r.usize(4);
     let mut cases = vec![];
@@ -612,7 +626,9 @@ fn gen07_body(b: &mut Builder, r: &mut Rng, kind: MacroKind, var: &str, n: usize
             // stored program visible inside the body
             let name = format!("p{}", b.case.programs.len());
             let sc = element_script(r, kind, n, truth_role);
-            let pe = b.cb(sc, vec![]);
+            // the program may read an outer binding that the macro's own text never names
+            let args = if r.chance(1, 2) { vec![b.bound(any_value(r))] } else { vec![] };
+            let pe = b.cb(sc, args);
             b.case.programs.insert(name.clone(), pe);
             E::Prog(name)
         }
@@ -764,6 +780,11 @@ pub fn gen07_random(seed: u64) -> EnvCase {
         }
         E::mac(kind, range, var, bodies)
     };
+    // a stored program under the loop variable's own name: inside the body the name means the
+    // element (a bound variable is found before a stored program)
+    if !over_map && r.chance(1, 8) && !b.case.programs.contains_key(var) {
+        b.case.programs.insert(var.to_string(), E::Lit(V::s("program-named-like-the-loop-variable")));
+    }
     // a stored program reading the loop name is also evaluated outside the macro, before or
     // after it, in the same execution: there the name means the outer binding
     let pv: Vec<String> = b.case.programs.keys().filter(|k| k.starts_with("pv")).cloned().collect();
@@ -821,6 +842,13 @@ pub enum PathCfg {
     /// the root is the name of a stored program whose value is absent (an unbound name or
     /// a missing key): absent data reached through a program reference is still absent
     RootProgramAbsent,
+    /// the whole path is a constant: the tree is written as a literal (present leaf)
+    LiteralPresent,
+    /// constant path whose last key is missing from the literal
+    LiteralMissingLeaf,
+    /// constant path that fails with a non-absence failure (division by zero / bad list
+    /// index inside the literal): the compiler may evaluate it, has() must still propagate
+    LiteralFails,
 }
 
 pub fn path_cfgs(d: usize) -> Vec<PathCfg> {
@@ -833,6 +861,9 @@ pub fn path_cfgs(d: usize) -> Vec<PathCfg> {
         PathCfg::RootProgram,
         PathCfg::RootProgramFails,
         PathCfg::RootProgramAbsent,
+        PathCfg::LiteralPresent,
+        PathCfg::LiteralMissingLeaf,
+        PathCfg::LiteralFails,
     ];
     for l in 1..=d {
         v.push(PathCfg::MissingAt(l));
@@ -859,11 +890,21 @@ pub fn build_path(b: &mut Builder, r: &mut Rng, d: usize, cfg: PathCfg, mask: u3
         },
     };
     let leaf = if cfg != PathCfg::NullLeaf && leaf == V::Null { V::Int(0) } else { leaf };
+    // literal trees hold values every literal spelling round-trips
+    let leaf = if matches!(cfg, PathCfg::LiteralPresent | PathCfg::LiteralMissingLeaf | PathCfg::LiteralFails) {
+        match r.below(3) {
+            0 => V::Int(r.range(0, 9)),
+            1 => V::s("leaf"),
+            _ => V::list(vec![V::Int(1), V::Int(2)]),
+        }
+    } else {
+        leaf
+    };
     // build nested maps bottom-up
     let mut tree = leaf;
     for lvl in (1..=d).rev() {
         let mut m = BTreeMap::new();
-        let missing = matches!(cfg, PathCfg::MissingAt(l) if l == lvl);
+        let missing = matches!(cfg, PathCfg::MissingAt(l) if l == lvl) || (cfg == PathCfg::LiteralMissingLeaf && lvl == d);
         if !missing {
             m.insert(FIELDS[lvl - 1].to_string(), tree);
         }
@@ -889,6 +930,17 @@ pub fn build_path(b: &mut Builder, r: &mut Rng, d: usize, cfg: PathCfg, mask: u3
         tree = replace_at(tree, l, non);
     }
     let root = match cfg {
+        PathCfg::LiteralPresent | PathCfg::LiteralMissingLeaf => E::Lit(tree),
+        PathCfg::LiteralFails => {
+            // the literal tree, then a constant operation on it that fails with a class
+            // other than absence
+            let t = E::Lit(tree);
+            match r.below(3) {
+                0 => E::Index(Box::new(E::List(vec![t])), Box::new(E::Lit(V::Int(3)))),
+                1 => E::Add(Box::new(t), Box::new(E::FailLit(FailLit::DivZero))),
+                _ => E::FailLit(*r.pick(&FailLit::ALL)),
+            }
+        }
         PathCfg::RootUnbound => b.unbound(),
         PathCfg::RootFails => {
             let c = inj_class(r);
